@@ -402,7 +402,7 @@ func checkStore(db sortedkv.Database, allowed []*chanops.Snap, id channel.ID, pe
 
 const rule = "histories of 1-30 operations on a persistence.StateMachine over keyvalue.NewPersistRestorer(faultkv): " +
 	"ChannelCreated (2-3 participants, 5% 11 so that signature keys have two digits; with/without parent; no-app or mock app; own index any) then operations drawn phase-aware from " +
-	"Init, Sig, AddSig(valid|other signer|other state|random), EnableInit/Update/Final, Update(next|final|bad version|bad sum), DiscardUpdate, " +
+	"Init, Sig, AddSig(valid|other signer|other state|random|cut to 63 bytes), EnableInit/Update/Final, Update(next|final|bad version|bad sum), DiscardUpdate, " +
 	"ForceUpdate (only with a current state), SetFunded, SetRegistering, SetRegistered, SetProgressing, SetProgressed, SetWithdrawing, SetWithdrawn (removal), " +
 	"direct ChannelRemoved; one in ten operations is drawn from the whole alphabet regardless of phase; about 7% of the histories use the " +
 	"order of client.persistVirtualChannel (Init..SetFunded before ChannelCreated). memorydb, LevelDB for a tenth. " +
